@@ -118,6 +118,15 @@ template <class T> class StringTableT { Tab _table; public:
     int intern(const T &s) { const Tab &strings = _table; Ent *it = strings.find(0); if (it == strings.end()) { _table.insert(0); return 0; } return it->i; }
     void forget_bad(const T &) { _table.erase(0); } };
 inline int use_table() { StringTableT<int> t; t.forget_bad(1); return t.intern(2); }
+// R19.own: a view shares the storage it refers to together with the handle that keeps that storage alive
+struct AnyH { int *h = nullptr; AnyH() {} AnyH(const AnyH &o) : h(o.h) {} };
+template <class T> class StringArrayT { StringTableT<T> &_table; AnyH _tableHandle; public:
+    StringArrayT(StringTableT<T> &t, AnyH th) : _table(t), _tableHandle(th) {}
+    // own_good
+    StringArrayT(StringArrayT &s, int) : _table(s._table), _tableHandle(s._tableHandle) {}
+    // own_bad: shares the table but not its owner
+    StringArrayT(StringArrayT &s, long) : _table(s._table) {} };
+inline void use_sarray() { StringTableT<int> t; StringArrayT<int> a(t, AnyH()); StringArrayT<int> b(a, 1); StringArrayT<int> c(a, 1L); (void) b; (void) c; }
 }
 
 // ---------------------------------------------------------------- C20 examples
